@@ -322,6 +322,47 @@ def andM (r : R) (k : UF → R) : R :=
   | some (true, u) => k u
   | some (false, u) => some (false, u)
 
+/-- The `match (a_def, b_def)` of `is_structurally_equal`; `rec` performs the recursive calls
+(`eqF` at the remaining fuel). -/
+def structural (rec : UF → Call → R) (a b : Nat) (u : UF) : Def → Def → R
+  -- Peel off typedef layers and continue recursing.
+  | .alias ta, _ => rec u (.it b ta)
+  | _, .alias tb => rec u (.it a tb)
+  | .record fa, .record fb =>
+    if fa.length = fb.length then
+      allM (fun u p => if p.1.1 = p.2.1 then rec u (.tt p.1.2 p.2.2) else some (false, u))
+        u (fa.zip fb)
+    else some (false, u)
+  | .variant ca, .variant cb =>
+    if ca.length = cb.length then
+      allM (fun u p => if p.1.1 = p.2.1 then rec u (.ot p.1.2 p.2.2) else some (false, u))
+        u (ca.zip cb)
+    else some (false, u)
+  | .enum ea, .enum eb =>
+    some (decide (ea.length = eb.length) && (ea.zip eb).all (fun p => decide (p.1 = p.2)), u)
+  | .flags fa, .flags fb =>
+    some (decide (fa.length = fb.length) && (fa.zip fb).all (fun p => decide (p.1 = p.2)), u)
+  | .tuple ta, .tuple tb =>
+    if ta.length = tb.length then
+      allM (fun u p => rec u (.tt p.1 p.2)) u (ta.zip tb)
+    else some (false, u)
+  | .list la, .list lb => rec u (.tt la lb)
+  | .fixedList ta sa, .fixedList tb sb =>
+    if sa = sb then rec u (.tt ta tb) else some (false, u)
+  | .option oa, .option ob => rec u (.tt oa ob)
+  | .result oka erra, .result okb errb =>
+    andM (rec u (.ot oka okb)) (fun u => rec u (.ot erra errb))
+  | .map ak av, .map bk bv =>
+    andM (rec u (.tt ak bk)) (fun u => rec u (.tt av bv))
+  | .future pa, .future pb => rec u (.ot pa pb)
+  | .stream pa, .stream pb => rec u (.ot pa pb)
+  | .own ra, .own rb => rec u (.se ra rb)
+  | .borrow ra, .borrow rb => rec u (.se ra rb)
+  -- Resources are only equal if their original ids are equal.
+  | .resource, .resource => some (decide (a = b), u)
+  -- every `(Kind(_), _) => false` arm
+  | _, _ => some (false, u)
+
 def eqF (T : Table) : Nat → UF → Call → R
   | 0, _, _ => none
   | fuel + 1, u, .se a b =>
@@ -333,48 +374,12 @@ def eqF (T : Table) : Nat → UF → Call → R
       match findT u b with
       | none => none
       | some (rb, u) =>
-      if ra = rb then some (true, u) else
-      match aDef, bDef with
-      -- Peel off typedef layers and continue recursing.
-      | .alias ta, _ => eqF T fuel u (.it b ta)
-      | _, .alias tb => eqF T fuel u (.it a tb)
-      | .record fa, .record fb =>
-        if fa.length = fb.length then
-          allM (fun u p => if p.1.1 = p.2.1 then eqF T fuel u (.tt p.1.2 p.2.2) else some (false, u))
-            u (fa.zip fb)
-        else some (false, u)
-      | .variant ca, .variant cb =>
-        if ca.length = cb.length then
-          allM (fun u p => if p.1.1 = p.2.1 then eqF T fuel u (.ot p.1.2 p.2.2) else some (false, u))
-            u (ca.zip cb)
-        else some (false, u)
-      | .enum ea, .enum eb =>
-        some (decide (ea.length = eb.length) && (ea.zip eb).all (fun p => decide (p.1 = p.2)), u)
-      | .flags fa, .flags fb =>
-        some (decide (fa.length = fb.length) && (fa.zip fb).all (fun p => decide (p.1 = p.2)), u)
-      | .tuple ta, .tuple tb =>
-        if ta.length = tb.length then
-          allM (fun u p => eqF T fuel u (.tt p.1 p.2)) u (ta.zip tb)
-        else some (false, u)
-      | .list la, .list lb => eqF T fuel u (.tt la lb)
-      | .fixedList ta sa, .fixedList tb sb =>
-        if sa = sb then eqF T fuel u (.tt ta tb) else some (false, u)
-      | .option oa, .option ob => eqF T fuel u (.tt oa ob)
-      | .result oka erra, .result okb errb =>
-        andM (eqF T fuel u (.ot oka okb)) (fun u => eqF T fuel u (.ot erra errb))
-      | .map ak av, .map bk bv =>
-        andM (eqF T fuel u (.tt ak bk)) (fun u => eqF T fuel u (.tt av bv))
-      | .future pa, .future pb => eqF T fuel u (.ot pa pb)
-      | .stream pa, .stream pb => eqF T fuel u (.ot pa pb)
-      | .own ra, .own rb => eqF T fuel u (.se ra rb)
-      | .borrow ra, .borrow rb => eqF T fuel u (.se ra rb)
-      -- Resources are only equal if their original ids are equal.
-      | .resource, .resource => some (decide (a = b), u)
-      -- every `(Kind(_), _) => false` arm
-      | _, _ => some (false, u)
+      if ra = rb then some (true, u)
+      else structural (eqF T fuel) a b u aDef bDef
     | _, _ => none
   | fuel + 1, u, .tt a b =>
     match a, b with
+    -- Peel off typedef layers and continue recursing.
     | .id a, b => eqF T fuel u (.it a b)
     | a, .id b => eqF T fuel u (.it b a)
     | .prim p, .prim q => some (decide (p = q), u)
